@@ -850,6 +850,14 @@ func famSelection(t *tgen) {
 			"// :convergen\ntype Hollow interface{}\n\n"))
 		t.feat("converter-interface-without-methods")
 	}
+	if t.ch(0.3) {
+		// objects of the package scope whose type is an interface without being an interface declaration: a marked variable,
+		// a marked function; they stay where they are
+		sb.WriteString(t.pick("// Default is a variable, not an interface declaration.\n// :convergen\nvar Default interface{ VarConv(*S) *D }\n\n",
+			"// :convergen\nvar Registry, Spare interface {\n\tVarConv(*S) *D\n}\n\n",
+			"// :convergen\nvar Fallback = interface{ VarConv(*S) *D }(nil)\n\n"))
+		t.feat("marked-variable-of-interface-type")
+	}
 	if !useNamed && t.ch(0.4) {
 		sb.WriteString("// :convergen\ntype Sure interface {\n\tSure(*S) *D\n}\n")
 		t.feat("method-named-like-its-interface")
@@ -1112,6 +1120,13 @@ func (s S) Self() S                  { return s }
 type D struct {
 	A, B, C int
 	N, M    string
+	// members named like methods of S: candidates of the default matching under :getter only if the method is a getter
+	Plain   int
+	PtrRecv int
+	Two     int
+	ErrOnly error
+	None    interface{}
+	Self    S
 }
 
 func FromCat(c *Cat) string  { return c.Name() }
@@ -1120,7 +1135,7 @@ func FromInt(n int) (int, error) { return n, nil }
 `, t.name)
 	srcs := []string{"Plain()", "PtrRecv()", "WithParam()", "Variadic()", "Two()", "TwoNoErr()", "Three()", "None()", "ErrOnly()",
 		"Cat().Age", "PCat().Age", "Cat().Name()", "Cat().PName()", "PCat().Name()", "PCat().PName()", "Self().A", "Self().Plain()",
-		"Self().Self().A", "Two().A", "A", "cat.Age", "cat.Name()", "cat.PName()", "pc.PName()"}
+		"Self().Self().A", "Two().A", "A", "cat.Age", "cat.Name()", "cat.PName()", "pc.PName()", "cat.cat.Age", "s.A", "pc.Age"}
 	convs := []string{"FromCat Cat() N", "FromCat Cat() N", "FromCat PCat() N", "FromCatV Cat() N", "FromCatV PCat() N", "FromCat cat N", "FromCat pc N",
 		"FromInt Plain() B", "FromInt Two() B", "FromInt Two() B", "FromInt Two() B", "FromInt A B"}
 	var sb strings.Builder
@@ -1144,7 +1159,8 @@ func FromInt(n int) (int, error) { return n, nil }
 			}
 		}
 		ret := t.pick("*D", "D", "(*D, error)", "(D, error)", "(*D, error)")
-		fmt.Fprintf(&sb, "\tTo%d(%sS) %s\n", j, t.pick("*", ""), ret)
+		// the source operand may bear the name of one of its own members (cat.cat.Age is then a path of two segments)
+		fmt.Fprintf(&sb, "\tTo%d(%s%sS) %s\n", j, t.pick("", "", "cat ", "pc ", "A ", "s "), t.pick("*", ""), ret)
 	}
 	sb.WriteString("}\n")
 	t.files[t.name+"/setup.go"] = sb.String()
